@@ -225,12 +225,9 @@ def checkStrings (o : Opts) (pat : PatFn) (actual0 expected0 : List Line) : Resu
   let eSurv := survivorIdx o oe
   let actual := if doRemove then aSurv.map (fun i => oa.getD i []) else oa
   let expected := if doRemove then eSurv.map (fun i => oe.getD i []) else oe
-  -- the two index maps as built at :148-190 (the second loop also writes `actual_map`)
-  let aMap : Nat → Nat := fun k =>
-    if doRemove then
-      (if k < eSurv.length then eSurv.getD k k else if k < aSurv.length then aSurv.getD k k else k)
-    else k
-  let eMap : Nat → Nat := fun k => k
+  -- the two index maps as built at :148-190: after-removal position -> original position
+  let aMap : Nat → Nat := fun k => if doRemove then aSurv.getD k k else k
+  let eMap : Nat → Nat := fun k => if doRemove then eSurv.getD k k else k
   let (firstError, ndiffs0, cases, aIgn, eIgn, permutable) :=
     if actual.length == expected.length then
       let diffs := (List.range actual.length).filter
